@@ -10,7 +10,7 @@ use std::cmp::Ordering;
 use std::fmt::{self, Debug};
 use std::collections::HashMap;
 use std::borrow::Borrow;
-use rand::Rng;
+use rand::{Rng, SeedableRng};
 
 /// Maximum number of levels in the skip list
 const MAX_LEVEL: usize = 32;
@@ -33,7 +33,7 @@ pub struct SkipList<K, V> {
     /// Inner data protected by RwLock
     inner: Arc<RwLock<SkipListInner<K, V>>>,
     /// Random number generator for level generation
-    rng: Arc<RwLock<rand::rngs::ThreadRng>>,
+    rng: Arc<RwLock<rand::rngs::StdRng>>,
 }
 
 /// Inner skip list data with dual indexing
@@ -85,7 +85,11 @@ where
                 memory_usage: std::mem::size_of::<SkipListNode<K, V>>() + MAX_LEVEL * std::mem::size_of::<Option<*mut SkipListNode<K, V>>>(),
                 key_index: HashMap::new(),
             })),
-            rng: Arc::new(RwLock::new(rand::thread_rng())),
+            // An owned generator: ThreadRng is a non-atomic Rc handle to the creating
+            // thread's generator and must not be dropped or used on another thread
+            // (the sweeper and the save thread drop sorted sets).
+            rng: Arc::new(RwLock::new(rand::rngs::StdRng::from_rng(rand::thread_rng())
+                .unwrap_or_else(|_| rand::rngs::StdRng::from_entropy()))),
         }
     }
 
